@@ -307,3 +307,83 @@ func vpH_C05_remote_view_scored() {
 	vpCover(gray && sub && !w.inTopic[i], "SUBSCRIBE from a graylisted peer is applied")
 	vpCover(gray && !sub && w.inTopic[i], "UNSUBSCRIBE from a graylisted peer is applied")
 }
+
+// retry2: TWO connected peers, each outbound queue full or not at the moment interest changes (solver variables), peers
+// registered in either order (the library walks a map): every peer is either told at once or retried until told - a full
+// queue at one peer never costs ANOTHER peer its announcement; after the retries both observers' views equal the node's
+// interest. With the recording tracer attached (C19): every announcement accepted by a queue - at once or on a retry - has
+// exactly one SEND_RPC event, every refused one exactly one DROP_RPC event.
+func vpH_C05_retry2() {
+	nd := vpNewNode("self", vpNodeCfg{router: "floodsub", queue: 1, tracer: true})
+	ps := nd.ps
+	ps.eval = make(chan func(), 4)
+	names := []peer.ID{"obsA", "obsB"}
+	if vpBool("registered_in_reverse_order") {
+		names = []peer.ID{"obsB", "obsA"}
+	}
+	var qs [2]*rpcQueue
+	var full [2]bool
+	for i := 0; i < 2; i++ {
+		qs[i] = nd.vpAddPeer(names[i], FloodSubID, true)
+		full[i] = vpBool("queue_full")
+		if full[i] {
+			qs[i].Push(&RPC{}, false)
+		}
+	}
+	nd.tr.evts = nil
+	sub := vpBool("subscribe") // (an unsubscribe announcement of a node without interest is not retried: nothing to correct)
+	if sub {
+		s := &Subscription{topic: vpT0, ch: make(chan *Message, 1), ctx: ps.ctx}
+		ps.handleAddSubscription(&addSubReq{sub: s, resp: make(chan *Subscription, 1)})
+	} else {
+		ps.announce(vpT0, false)
+	}
+	var observed [2]bool
+	var told [2]int
+	hear := func() {
+		for i := 0; i < 2; i++ {
+			for _, r := range vpDrain(qs[i]) {
+				for _, so := range r.GetSubscriptions() {
+					if so.GetTopicid() == vpT0 {
+						observed[i] = so.GetSubscribe()
+						told[i]++
+					}
+				}
+			}
+		}
+	}
+	for i := 0; i < 2; i++ {
+		sends, drops := nd.tr.countPeer(pb.TraceEvent_SEND_RPC, names[i]), nd.tr.countPeer(pb.TraceEvent_DROP_RPC, names[i])
+		if full[i] {
+			vpAssert(sends == 0 && drops == 1, "an announcement refused by a full queue has exactly one DROP_RPC event and no SEND_RPC")
+		} else {
+			vpAssert(sends == 1 && drops == 0, "an announcement accepted by a queue has exactly one SEND_RPC event, whatever happened at other peers")
+		}
+	}
+	hear()
+	for i := 0; i < 2; i++ {
+		if !full[i] {
+			vpAssert(told[i] == 1, "a peer whose queue has room is told at once, also when another peer's queue is full")
+		}
+	}
+	nd.tr.evts = nil
+	for k := 0; k < 2; k++ {
+		time.Sleep(2 * time.Second)
+		vpFireAll()
+		for len(ps.eval) > 0 {
+			f := <-ps.eval
+			f()
+		}
+		hear()
+	}
+	for i := 0; i < 2; i++ {
+		if sub {
+			vpAssert(observed[i] && told[i] == 1, "after the retries every connected peer has been told of the node's interest exactly once")
+		}
+		if full[i] && sub {
+			vpAssert(nd.tr.countPeer(pb.TraceEvent_SEND_RPC, names[i]) == 1, "an announcement accepted on a RETRY has exactly one SEND_RPC event as well")
+		}
+	}
+	vpCover(full[0] && !full[1] && sub, "first peer's queue full, second has room")
+	vpCover(full[0] && full[1] && sub, "both queues full")
+}
